@@ -139,11 +139,11 @@ def run(c):
 
     killed = sum(1 for r, s in cases if s["killed"])
     after_latch = sum(1 for r, s in cases if s["killed"] and s["latched_at_kill"] != "none")
-    c.evaluations = len(cases)
     for r, s in cases:
         c.count(json.dumps([s["scenario"], s["plan"], s["killed_before"], s["latched_at_kill"], s["final_after_kill"], s["tmp_after_kill"],
                             s["host_requests_first"]], sort_keys=True))
-    c.traces_validated += 2 * len(cases)
+    c.evaluations = len(cases)
+    c.traces_validated += len(cases)
     c.extra["sweeps"] = {"%s/%s" % j: {"cases": len(res[j][0]), "syscalls_in_baseline": res[j][1]} for j in jobs}
     c.extra["cases"] = len(cases)
     c.extra["killed_runs"] = killed
